@@ -132,7 +132,17 @@ func cmdCheck(args []string) {
 	var engineErrs []string
 	var samples []any
 
-	for _, un := range pd.Units {
+	// Worklist: the property's units, then (transitively) every module function whose contract a verified unit relied on
+	// at a call site — a caller is checked against the callee's contract, so the callee must be checked against it too.
+	units := append([]unit(nil), pd.Units...)
+	haveUnit := map[string]bool{}
+	for _, un := range units {
+		haveUnit[un.Fn] = true
+	}
+	depUnits := map[string]bool{}
+	assumedBodies := map[string]string{}
+	for ui := 0; ui < len(units); ui++ {
+		un := units[ui]
 		key := modulePath + "/" + un.Fn
 		if strings.HasPrefix(un.Fn, "main.") {
 			key = modulePath + "." + strings.TrimPrefix(un.Fn, "main.")
@@ -141,6 +151,10 @@ func cmdCheck(args []string) {
 		if len(fns) == 0 {
 			// the function the property is anchored in no longer exists under that name
 			ob := &Obligation{Name: un.Fn + "/contract-binding:function-not-found", Kind: "subset", Status: "failed", Solver: "structural", Detail: "function under contract not found in the current tree"}
+			if alt := toggleRecv(key); alt != key && len(w.findFuncs(alt)) > 0 {
+				ob.Name = un.Fn + "/receiver-kind-changed"
+				ob.Detail = "the method under contract now has the other receiver kind (" + strings.TrimPrefix(alt, modulePath+"/") + "): a value receiver operates on a copy of the object (its mutex and fields are copied), so the contract about the shared object cannot bind"
+			}
 			failed = append(failed, ob)
 			reports = append(reports, oblReport{Name: ob.Name, Kind: ob.Kind, Status: ob.Status, Backend: ob.Solver, Detail: ob.Detail})
 			continue
@@ -162,7 +176,7 @@ func cmdCheck(args []string) {
 						base = "ensures:" + rest[:i]
 					}
 				}
-				keep := len(incs) == 0 || o.Kind == "subset"
+				keep := len(incs) == 0 || o.Kind == "subset" || o.Kind == "cover" || o.Kind == "vacuity"
 				for _, re := range incs {
 					if re.MatchString(suffix) || re.MatchString(base) {
 						keep = true
@@ -190,6 +204,19 @@ func cmdCheck(args []string) {
 			}
 			for _, x := range res.Contracts {
 				contractsUsed[x] = true
+				short := strings.TrimPrefix(strings.TrimPrefix(x, modulePath+"/"), modulePath+".")
+				if strings.HasPrefix(x, modulePath+".") {
+					short = "main." + short
+				}
+				if ct := w.contracts[x]; ct != nil && ct.assumed != "" {
+					assumedBodies[x] = ct.assumed
+					continue
+				}
+				if !haveUnit[short] && len(w.findFuncs(x)) > 0 {
+					haveUnit[short] = true
+					depUnits[short] = true
+					units = append(units, unit{Fn: short, Include: []string{`^ensures:`, `^inv-`, `^frame:`, `^assert_at`, `^ghost`}})
+				}
 			}
 			for _, x := range res.Regexes {
 				regexes[x] = true
@@ -317,6 +344,9 @@ func cmdCheck(args []string) {
 		"termination is not proved; go.uber.org/zap calls are effect-free",
 	)
 	assumptions = append(assumptions, pd.Assume...)
+	for _, k := range sortedKeys(assumedBodies) {
+		assumptions = append(assumptions, "ASSUMED CONTRACT (body not verified against it): "+k+" — "+assumedBodies[k])
+	}
 	for _, e := range engineErrs {
 		assumptions = append(assumptions, "ENGINE ERROR: "+e)
 	}
@@ -329,6 +359,9 @@ func cmdCheck(args []string) {
 			"trusted_base":             trusted,
 			"functions_under_contract": sortedKeys(funcs),
 			"callee_contracts_used":    sortedKeys(contractsUsed),
+			"dependency_units":         sortedKeys(depUnits),
+			"assumed_contracts_without_body": assumedOnly(w, contractsUsed),
+			"assumed_contracts_with_unverified_body": assumedBodies,
 			"inlined_callees":          sortedKeys(inlined),
 			"backends":                 backends,
 			"solver_time_s":            round3(solverTime),
@@ -392,4 +425,27 @@ func max(a, b int) int {
 		return a
 	}
 	return b
+}
+
+// assumedOnly lists the contracts relied on that have no function body under verification in this run (interface methods,
+// function types, function-valued fields): they are assumptions about whatever implementation is plugged in.
+func assumedOnly(w *World, used map[string]bool) []string {
+	var out []string
+	for _, k := range sortedKeys(used) {
+		if len(w.findFuncs(k)) == 0 {
+			out = append(out, k)
+		}
+	}
+	return out
+}
+
+// toggleRecv maps pkg.(*T).M to pkg.(T).M and back.
+func toggleRecv(key string) string {
+	if i := strings.Index(key, ".(*"); i >= 0 {
+		return key[:i] + ".(" + key[i+3:]
+	}
+	if i := strings.Index(key, ".("); i >= 0 {
+		return key[:i] + ".(*" + key[i+2:]
+	}
+	return key
 }
